@@ -30,6 +30,7 @@ type mon struct {
 	maj        string
 	prevState  string
 	claimed    map[string]bool // block ids some peer claimed a majority for (accepted claims)
+	mst        []mstEntry      // signatures of the multi-sign transaction under construction (wide.go)
 	// pending commit
 	hasC   bool
 	cbid   bidT
@@ -441,6 +442,8 @@ func (P) Monitor(c *hx.CaseRun) []hx.Failure {
 				m.fail("signbytes_binds", "signbytes-collision", "types/vote.go:SignBytes", "two votes that differ in chain/height/round/type/block id/time have the same sign-bytes: "+op)
 			}
 			sb[ans] = t
+		default:
+			m.wideMon(toks, op, ans, panicked, site)
 		}
 	}
 	return m.fs
